@@ -23,3 +23,8 @@ check('C07',
   'For 7 route tables x 4 option subsets x capacities 0..3 (thorough 0..4) the complete graph of reachable cache states of the real router is explored breadth-first (state = cache keys in recency order with the route and params each entry holds); in every state every request of an 11/14-request alphabet (hits, misses, evictions, HEAD->GET, 405 probes, fallback route, 404) is executed through Match and ServeHTTP and must observe exactly what the same router without caching observes. Fix-point reached: every state x every request.',
   'The canonical state is the cache content only (tables/options are frozen after registration, contexts are reset - C10). Bounded request alphabet and tables.',
   'DESIGN.md 5 C07')
+check('C11',
+  'bounded exhaustive enumeration: the full square of all strings up to length L as registered and as requested path',
+  'ALL strings of length <=5 (thorough 6) over {/, space, ., a, b, TAB} are registered, each on its own router, and ALL of them are looked up against it in both StrictLastSlash modes (209 M / 6.3 G lookups): a request reaches the route iff both normalise to the same string under an independent 10-line normaliser, Route.Path() is that normal form and nothing panics. The same is done for group prefix x path x request (length <=3) and for raw/escaped paths of <=4 tokens under both UseEncodedPath settings.',
+  'Alphabet of 6 characters, bounded length; net/url EscapedPath is taken as the definition of the escaped path.',
+  'DESIGN.md 5 C11')
